@@ -432,6 +432,50 @@ func oracles(r *vx.Run, in nsx.Input, ast *nsx.Script, ob runObs) {
 			}
 		}
 	}
+	// C03 (e): one send from a flat ordered list of plain literal accounts: a later source contributes only when
+	// every earlier one has given its whole (positive) balance
+	if len(ast.Stmts) == 1 && ast.Stmts[0].K == "send" && ast.Stmts[0].Src.Src != nil && ast.Stmts[0].Src.Src.K == "inorder" && ast.Stmts[0].Mon != nil && ast.Stmts[0].Mon.K == "mon" {
+		flat := true
+		var names []string
+		for _, x := range ast.Stmts[0].Src.Src.Srcs {
+			if x.K != "account" || x.Ov != "none" || x.Acc.K != "acc" || x.Acc.Text == "world" {
+				flat = false
+				break
+			}
+			names = append(names, x.Acc.Text)
+		}
+		if flat {
+			asset := ast.Stmts[0].Mon.Asset.Text
+			gave := map[string]*big.Int{}
+			for _, p := range ob.Postings {
+				if gave[p.Source] == nil {
+					gave[p.Source] = big.NewInt(0)
+				}
+				gave[p.Source].Add(gave[p.Source], (*big.Int)(p.Amount))
+			}
+			exhausted := true
+			for _, a := range names {
+				have := big.NewInt(0)
+				if v, ok := in.Balances[a][asset]; ok {
+					have, _ = new(big.Int).SetString(v, 10)
+				}
+				if have.Sign() < 0 {
+					have = big.NewInt(0)
+				}
+				g := gave[a]
+				if g == nil {
+					g = big.NewInt(0)
+				}
+				if g.Sign() > 0 && !exhausted {
+					r.FailP("C03", "order:later-source-contributes-before-an-earlier-one-is-exhausted", in, fmt.Sprintf("%s gives %s although an earlier source still holds funds", a, g), size)
+					break
+				}
+				if g.Cmp(have) < 0 {
+					exhausted = false
+				}
+			}
+		}
+	}
 	// C01: floor
 	unb, bnd := collectGrants(ast, ob.AllVars)
 	running := map[string]*big.Int{}
@@ -748,6 +792,23 @@ func boundaryFamily() []nsx.Input {
 					allot := fmt.Sprintf("send [USD %d] (\n  source = {\n    1/2 from @a%s\n    1/2 from @a%s\n  }\n  destination = @b\n)\n", x, ov1, ov2)
 					out = append(out, nsx.Input{Script: allot, Vars: map[string]string{}, Balances: bal, Meta: map[string]map[string]string{}, Note: "boundary:allotment-same-account"})
 				}
+			}
+		}
+	}
+	// many ordered sources (fundings of more than a dozen parts) under destinations that keep something back
+	for _, n := range []int{3, 12, 13, 14, 20} {
+		var srcs strings.Builder
+		bal := map[string]map[string]string{}
+		for i := 1; i <= n; i++ {
+			fmt.Fprintf(&srcs, "    @s%02d\n", i)
+			bal[fmt.Sprintf("s%02d", i)] = map[string]string{"USD": "10"}
+		}
+		for _, kept := range []int{0, 5, 35} {
+			for _, amt := range []int{10*n - 7, 10 * n} {
+				sc := fmt.Sprintf("send [USD %d] (\n  source = {\n%s  }\n  destination = {\n    max [USD %d] kept\n    remaining to @x\n  }\n)\n", amt, srcs.String(), kept)
+				out = append(out, nsx.Input{Script: sc, Vars: map[string]string{}, Balances: bal, Meta: map[string]map[string]string{}, Note: "boundary:many-ordered-sources-kept"})
+				sc2 := fmt.Sprintf("send [USD %d] (\n  source = {\n%s  }\n  destination = {\n    1/3 kept\n    remaining to {\n      max [USD 7] to @y\n      remaining to @x\n    }\n  }\n)\n", amt, srcs.String())
+				out = append(out, nsx.Input{Script: sc2, Vars: map[string]string{}, Balances: bal, Meta: map[string]map[string]string{}, Note: "boundary:many-ordered-sources-kept"})
 			}
 		}
 	}
